@@ -77,6 +77,15 @@ def percent_format(ex, st, fmt, arg, node=None):
     if f is None:
         raise Unsupported('%-format with symbolic format string')
     args = arg.items if isinstance(arg, VSeq) and arg.concrete and arg.kind == 'tuple' else [arg]
+    if any(isinstance(a, VOpt) for a in args):
+        # refine optional arguments by case split (None branches that the path condition excludes are pruned)
+        k = [i for i, a in enumerate(args) if isinstance(a, VOpt)][0]
+        res = []
+        for s2, fv in ex.force(st, args[k]):
+            a2 = list(args)
+            a2[k] = fv
+            res.extend(percent_format(ex, s2, fmt, VSeq(a2, kind='tuple'), node))
+        return res
     out = []
     i = 0
     ai = 0
